@@ -11,6 +11,8 @@ IMPORTS = ["SodiumModel.Properties.C02"] if THEOREMS else ["SodiumModel.Model.Ae
 # AEGIS decryption in the C's structure: rc = 0 iff the tag matches, on failure the output is zeroed / untouched, short input rejected (for every length and backend conforming to the block interface)
 THEOREMS = THEOREMS + vcore.theorems_in("SodiumModel/Properties/C01Aegis.lean", ['aegis128l_decrypt_detached_eq', 'aegis256_decrypt_detached_eq', 'aegis128l_decrypt_detached_32', 'aegis256_decrypt_detached_32', 'decrypt_detached_failure_output', 'decrypt_detached_bad_maclen', 'aegis128l_decrypt_detached_rc', 'aegis256_decrypt_detached_rc', 'crypto_aead_aegis128l_decrypt_detached_eq', 'crypto_aead_aegis256_decrypt_detached_eq', 'crypto_aead_decrypt_short', 'crypto_aead_decrypt_combined', 'crypto_aead_aegis128l_decrypt_eq', 'crypto_aead_aegis256_decrypt_eq'], "Sodium.C01Aegis")
 IMPORTS = IMPORTS + ["SodiumModel.Properties.C01Aegis"]
+THEOREMS = THEOREMS + vcore.theorems_in("SodiumModel/Properties/C01Gcm.lean", ['decrypt_generic_is_ctr_ghash', 'decrypt_detached_is_gcm', 'decrypt_is_gcm', 'decrypt_short_input', 'decrypt_beyond_limits'], "Sodium.C01Gcm")
+IMPORTS = IMPORTS + ["SodiumModel.Properties.C01Gcm"]
 FINGERPRINTS = "C01"
 RULE = ("from valid (key, nonce, ad, ciphertext, tag) tuples of every message length 0..70 (+ sampled larger) for the six AEADs and both secretbox "
         "variants: every single-bit flip of the tag, bit flips at every position of ciphertext / ad / nonce / key, every truncation length, appended "
